@@ -10,6 +10,7 @@ import entrypoints
 import gating
 import panics
 from props import c05
+from props import c17 as _c17
 
 EXPLANATION = (
     'Static decision of the structural conditions for totality of slicec (lib+bin) on its MIR: (1) panic-site ledger: every '
@@ -349,6 +350,7 @@ def run(ctx):
     ctx.run_rule('C01.2e', 'T2', 'self-containing aliases rejected before any recursive walk over type expressions (argument of SCCs type_string, typeref_visit, cycle_detector, dictionary_key)', c05.r_alias_through_anonymous, prog)
     ctx.run_rule('C01.1b', 'T6', 'white space skipper and classifier of the directive lexer agree (argument of the "should have been skipped" panic)', r_whitespace_agreement, prog)
     ctx.run_rule('C01.2f', 'T10', 'fresh search state per root; candidates scan on every path (argument of SCCs all_base_interfaces, cycle_detector)', c05.r_search_state_and_identity, prog)
+    ctx.run_rule('C01.2g', 'T8', 'the reference directory walk enters every directory once (argument of SCC directory_walk)', _c17.r_directory_walk_once, prog)
     ctx.run_rule('C01.3d', 'T9', 'alias chain loop: membership exit and growing chain (loop ledger variant)', c05.r_alias_loop, prog)
     ctx.run_rule('C01.3a', 'T9', 'every loop consumes on every path round it, or is in the loop ledger with its progress calls', r_loops, prog)
     ctx.run_rule('C01.3b', 'T9', 'lexers: no token at end of buffer without a state change', r_lexer_eof_state, prog)
